@@ -9,6 +9,7 @@ import (
 	"net/http"
 	"slices"
 	"strings"
+	"sync/atomic"
 	"testing"
 	"testing/synctest"
 
@@ -85,6 +86,7 @@ func bodyMessages(ex *memhttp.Exchange, lineNo int) []recvMsg {
 }
 
 func runHTTP(s Script) (res vt.Result) {
+	atomic.StoreInt64(&freshCounter, 0) // fresh ids are a function of the script
 	g := &gates{}
 	server := newServer(g)
 	h := &httpSession{kind: s.Transport, version: s.Version}
@@ -306,20 +308,20 @@ func runHTTP(s Script) (res vt.Result) {
 			tok := canonical(e.ID)
 			if e.ID != "" {
 				if isBatch && seenInBatch[tok] {
-					e.ID = fmt.Sprintf("%d", 100000+step*10+j)
+					e.ID = freshID()
 					tok = e.ID
 				}
 				if inflight[tok] && ex.response && !parkedTok(tok) {
 					// The original is only awaiting a deferred batch/JSON reply: whether the server still
 					// counts it as in flight is unobservable, so this shape is not generated.
-					e.ID = fmt.Sprintf("%d", 300000+step*10+j)
+					e.ID = freshID()
 					tok = e.ID
 				}
 				if inflight[tok] && ex.response {
 					// streamable refuses the whole POST (HTTP 400 + JSON-RPC error); SSE goes through jsonrpc2 (F4)
 					if s.Transport == "sse" && vt.Open("F4") {
 						vt.Excluded("F4")
-						e.ID = fmt.Sprintf("%d", 200000+step*10+j)
+						e.ID = freshID()
 						tok = e.ID
 					} else {
 						ex = expect{response: true, codes: []int{-32600}, class: "inflight_id_reuse"}
